@@ -35,6 +35,12 @@ func init() {
 		"vYield":    hYield,
 		"vThorough": func(m *machine, fr *frame, args []value) value { return m.w.thorough },
 		"vWriter":   hWriter,
+		"vAnd": func(m *machine, fr *frame, args []value) value {
+			return fromTerm(mkAnd(toTerm(args[0]), toTerm(args[1])))
+		},
+		"vOr": func(m *machine, fr *frame, args []value) value {
+			return fromTerm(mkOr(toTerm(args[0]), toTerm(args[1])))
+		},
 		"vWritten":  hWritten,
 		"vEvent":    hEvent,
 		"vExit":     func(m *machine, fr *frame, args []value) value { panic(exitPanic{args[0]}) },
